@@ -11,7 +11,9 @@ Open Scope string_scope.
 Inductive uarg :=
   | UPeriod (p : period) (v : option Z)
   | URange (s e : option Z) (v : option Z)
-  | UMixed (p : period) (s e : option Z) (v : option Z).
+  | UMixed (p : period) (s e : option Z) (v : option Z)
+  (* the same call with a value of a type that is not allowed instead of v *)
+  | UBad (u : uarg).
 
 (** one step on a live tree: read it at the query dates, or edit a leaf through the nodes *)
 Inductive top :=
@@ -33,11 +35,19 @@ Inductive case :=
 Definition yparam (entries : list (Z * yentry Z)) : hist Z :=
   match of_yaml false entries with Ok h => h | Err _ => [] end.
 
+Definition run_call (h : hist Z) (u : uarg) (bad : bool) : res (hist Z) :=
+  let val v := if bad then UIllTyped else UVal v in
+  match u with
+  | UPeriod p v => update_checked h (Some p) None None (val v)
+  | URange s e v => update_checked h None s e (val v)
+  | UMixed p s e v => update_checked h (Some p) s e (val v)
+  | UBad _ => Err EOther     (* not generated: UBad is not nested *)
+  end.
+
 Definition run_update (h : hist Z) (u : uarg) : res (hist Z) :=
   match u with
-  | UPeriod p v => update h (Some p) None None v
-  | URange s e v => update h None s e v
-  | UMixed p s e v => update h (Some p) s e v
+  | UBad u' => run_call h u' true
+  | _ => run_call h u false
   end.
 
 (** values_list as (date, value) pairs, then the value at every query date *)
@@ -50,9 +60,11 @@ Fixpoint steps (h : hist Z) (us : list uarg) (qs : list Z) : list obs :=
   match us with
   | [] => []
   | u :: r =>
-      match run_update h u with
-      | Ok h' => snapshot h' qs :: steps h' r qs
-      | Err e => OErr e :: steps h r qs
+      match run_update h u, u with
+      | Ok h' , _ => snapshot h' qs :: steps h' r qs
+      (* after a call with an ill-typed value the parameter is looked at again *)
+      | Err e, UBad _ => OL [OErr e; snapshot h qs] :: steps h r qs
+      | Err e, _ => OErr e :: steps h r qs
       end
   end.
 
